@@ -419,4 +419,27 @@ def fileRead (segRead : Seg → Nat → Nat → Bytes × Option Err) (segs : Lis
 def fileSeek (p : Ptr) (off : Nat) : Ptr :=
   if off = p.off then p else { p with off := off, stale := true }
 
+/-- `whence` of filehandle.Seek: io.SeekStart, io.SeekCurrent, io.SeekEnd -/
+inductive Whence where
+  | start | cur | fromEnd
+deriving Repr, DecidableEq, Inhabited
+
+/-- the offset filehandle.Seek computes (fs_filehandle.go:34-41) for a handle at `pos` of a file of `size` bytes -/
+def seekTarget (size pos : Nat) (w : Whence) (off : Int) : Int :=
+  match w with
+  | .start => off
+  | .cur => (pos : Int) + off
+  | .fromEnd => (size : Int) + off
+
+/-- filehandle.Seek(off, whence) (fs_filehandle.go:31-52): a negative target is ErrNegativeOffset (`none`)
+and leaves the handle as it was; a target different from the current offset is stored and the pointer is
+marked stale (`repacked = -1`), so that filenode.seek recomputes (segmentIdx, segmentOff) from the offset
+on the next use — the cached pair is never adjusted incrementally, whatever the whence. Returns the new
+pointer and the position reported to the caller. -/
+def fileSeekW (size : Nat) (p : Ptr) (w : Whence) (off : Int) : Ptr × Option Nat :=
+  let target := seekTarget size p.off w off
+  if target < 0 then (p, none)
+  else if target.toNat = p.off then (p, some p.off)
+  else ({ p with off := target.toNat, stale := true }, some target.toNat)
+
 end ArvVerif.C03
